@@ -43,6 +43,12 @@ CHECKS = {
    design_ref="§5 C11",
    note="Manifestation of a wrongly freed object depends on allocator reuse (stable in all trials; churn covers pointerful and pointer-free size classes). Shapes: *map, **map, []*map, *map of records, maps of maps/slices/records, *[]T, []*T, **T, *[]byte, [][]T, *[N]byte, **[N]byte, []*[N]byte and all of them behind pointer/slice/map.",
    technique="deterministic simulation: simulator-owned GC schedule (GC points as injected events) with run-A/run-B metamorphic oracle"),
+ "C12": dict(
+   category="exploration",
+   text="2..6 real goroutines run seeded lists of independent operations (build codecs, Register/RegisterSchema own types with versioned builders, decode/encode with SHARED codecs, ReadFile, Encoder, close banks received from other goroutines, SchemaForType, timestamp parsing with seeded zone offsets) under a token scheduler that releases one goroutine at a time from the plan's pre-drawn schedule and is invisible to the Go race detector (//go:norace spin on a plain word). Judge 1: the race detector's report stream must be empty. Judge 2: every operation's result equals the result of that goroutine's list re-executed alone. The simulated bank pool contributes exactly sync.Pool's Put->Get edge per bank.",
+   design_ref="§5 C12",
+   note="Sampled schedules. Race detector limits apply (bounded shadow history, one report per stack pair per process). Yield points: every SimDisk read/write, callback, operation boundary, and (hooks) before the registry, schema-registry and tz-cache locks and at pool get/put.",
+   technique="deterministic simulation: seeded token scheduler over real goroutines (race-detector-invisible) + Go race detector as happens-before judge + run-alone equivalence oracle"),
 }
 
 NOT_APPLICABLE = {
@@ -61,7 +67,7 @@ NOT_APPLICABLE = {
 }
 
 # planned simulation targets whose check is not built yet (kept honest while the build is in progress)
-PENDING = {k: "planned simulation target (DESIGN §5); its check is still under construction in this commit, so it is not claimed yet" for k in ["C06","C12"]}
+PENDING = {k: "planned simulation target (DESIGN §5); its check is still under construction in this commit, so it is not claimed yet" for k in ["C06"]}
 
 def main():
     hooks_commits = []
